@@ -209,7 +209,7 @@ func Source(k keyKind, v valKind, slots, pool int) string {
 	b.WriteString(common)
 	b.WriteString(k.decls)
 	b.WriteString(v.decls)
-	fmt.Fprintf(&b, "\nglobal ms: [%d]map[%s]%s\nglobal seen: []int\nglobal rCount, rDup, rBad: int\nglobal rKeySum, rValSum: i64\n", slots, k.typ, v.typ)
+	fmt.Fprintf(&b, "\nglobal ms: [%d]map[%s]%s\nglobal seen: []int\nglobal gone: []int\nglobal rCount, rDup, rBad: int\nglobal rKeySum, rValSum: i64\n", slots, k.typ, v.typ)
 	fmt.Fprintf(&b, `
 func mkKey(i: int) => %s {
 	return %s
@@ -230,7 +230,8 @@ func hVal(x: %s) => i64 {
 #wa:export setup
 func setup() {
 	seen = make([]int, %d)
-`, pool)
+	gone = make([]int, %d)
+`, pool, pool)
 	if k.needsP {
 		fmt.Fprintf(&b, "\tptrPool = make([]*PK, %d)\n\tfor i := range ptrPool {\n\t\tptrPool[i] = &PK{id: i, pad: itoa(i)}\n\t}\n", pool)
 		if strings.Contains(k.decls, "ptrCells") {
@@ -342,6 +343,47 @@ func rngdel(s: i32, m: i32, r: i32) => i32 {
 		}
 	}
 	return i32(rCount)
+}
+
+// rngdelo walks the map and, for visited keys whose index satisfies idx%%m == r,
+// deletes ANOTHER key (index (idx+shift)%%pool, present or not) while walking. A key
+// deleted before it is reached must not be visited afterwards (rBad); a key that is
+// never deleted must be visited exactly once (checked by the host from seen/gone).
+#wa:export rngdelo
+func rngdelo(s: i32, m: i32, r: i32, shift: i32, pool: i32) => i32 {
+	for i := range seen {
+		seen[i] = 0
+		gone[i] = 0
+	}
+	rCount, rDup, rBad = 0, 0, 0
+	rKeySum, rValSum = 0, 0
+	for k, x := range ms[s] {
+		i := keyIdx(k)
+		if i < 0 || i >= len(seen) {
+			rBad++
+			continue
+		}
+		if gone[i] != 0 {
+			rBad++
+		}
+		if seen[i] != 0 {
+			rDup++
+		}
+		seen[i]++
+		rCount++
+		rValSum += hVal(x) * i64(i+1)
+		if i%%int(m) == int(r) {
+			jk := mkKey((i + int(shift)) %% int(pool))
+			delete(ms[s], jk)
+			gone[keyIdx(jk)] = 1
+		}
+	}
+	return i32(rCount)
+}
+
+#wa:export goneAt
+func goneAt(i: i32) => i32 {
+	return i32(gone[i])
 }
 
 // rngins walks the map and, for visited keys whose index satisfies idx%%m == r,
